@@ -103,8 +103,10 @@ OPS = {
     'compute': lambda E, c, st: st['sim'].compute(),
     'misfit': lambda E, c, st: st['sim'].misfit,
     'gradient': lambda E, c, st: st['sim'].gradient,
-    'jvec': lambda E, c, st: st['sim'].jvec(_vec(st['sim'], 'v')),
-    'jtvec': lambda E, c, st: st['sim'].jtvec(_wvec(st['sim'], 'w')),
+    'jvec': lambda E, c, st: st['sim'].jvec(
+        _vec(st['sim'], f"v{st.get('pos', '')}")),
+    'jtvec': lambda E, c, st: st['sim'].jtvec(
+        _wvec(st['sim'], f"w{st.get('pos', '')}")),
     'get_efield': lambda E, c, st: st['sim'].get_efield(
         list(st['sim'].survey.sources)[0], list(
             st['sim'].survey.frequencies)[0]),
@@ -170,9 +172,14 @@ def case_sequence(seq):
     t0 = time.time()
     try:
         st = dict(sim=X['sim'], mtag='p')
-        for name in seq:
+        ret = None
+        for pos, name in enumerate(seq):
+            st['pos'] = pos
             try:
-                OPS[name](E, c, st)
+                ret = OPS[name](E, c, st)
+                if name in ('jvec', 'jtvec'):
+                    # (jvec returns a live array: snapshot the values)
+                    ret = list(np.asarray(ret, dtype=object).flat)
             except HistoryViolation as e:
                 c07.teardown(E, X)
                 X = None
@@ -214,6 +221,21 @@ def case_sequence(seq):
             X2['sim'].clean('computed')
         want = results(X2['sim'])
         diff = same(c, got, want)
+        # the RETURN VALUE of a final jvec / jtvec must equal that of the
+        # same call on a fresh simulation (which needs a misfit first)
+        if diff is None and seq[-1] in ('jvec', 'jtvec'):
+            c07.teardown(E, X2)
+            X2 = c07.build(E, c, 'ee', ANISO, MAPPING, W=W, sim_kw=SIM_KW)
+            if st['mtag'] != 'p':
+                X2['sim'].model = _new_model(E, c, X2['sim'], st['mtag'])
+                X2['sim'].clean('computed')
+            X2['sim'].misfit
+            st2 = dict(sim=X2['sim'], mtag=st['mtag'], pos=len(seq)-1)
+            ret2 = list(np.asarray(OPS[seq[-1]](E, c, st2),
+                                   dtype=object).flat)
+            d2 = same(c, (ret, 0.0, []), (ret2, 0.0, []))
+            if d2:
+                diff = f"return value of {seq[-1]}"
         tols = sorted({cc['tol'] for cc in W.calls})
     except Exception as e:    # noqa
         import traceback
@@ -287,9 +309,11 @@ def replay(cex):
             elif name == 'gradient':
                 sim.gradient
             elif name == 'jvec':
-                sim.jvec(rng.normal(size=(2,)+tuple(grid.shape_cells)))
+                lastarg = rng.normal(size=(2,)+tuple(grid.shape_cells))
+                lastret = np.array(sim.jvec(lastarg))
             elif name == 'jtvec':
-                sim.jtvec(rng.normal(size=(1, 2, 1))+0j)
+                lastarg = rng.normal(size=(1, 2, 1))+0j
+                lastret = np.array(sim.jtvec(lastarg))
             elif name == 'get_efield':
                 sim.get_efield('TxED-1', 'f-1')
             elif name.startswith('clean_'):
@@ -325,6 +349,19 @@ def replay(cex):
         fresh.compute()
         want = (fresh.data.synthetic.data.copy(), float(fresh.misfit),
                 np.array(fresh.gradient))
+        if str(cex.get('what', '')).startswith('return value'):
+            f2 = mk_sim(mseed)
+            f2.misfit
+            wantret = np.array(f2.jvec(lastarg) if seq[-1] == 'jvec'
+                               else f2.jtvec(lastarg))
+            bad = lastret.shape != wantret.shape or not np.allclose(
+                lastret, wantret, rtol=1e-3,
+                atol=1e-3*np.abs(wantret).max())
+            return bad, (f"real Simulation: {seq[-1]} after "
+                         f"{' -> '.join(seq[:-1])} returns "
+                         f"{'a different' if bad else 'the same'} result "
+                         f"as/than the same call on a fresh simulation "
+                         f"(max |fresh| {np.abs(wantret).max():.3e})")
     except Exception as e:     # noqa
         return True, f"real sequence {seq} raised {e!r}"[:300]
     finally:
@@ -356,7 +393,11 @@ def sequences(tier):
              ('misfit', 'jtvec', 'gradient'),
              ('compute', 'to_file_results', 'copy'),
              ('gradient', 'update_model', 'jvec'),
-             ('jvec', 'clean_computed', 'compute')]
+             ('jvec', 'clean_computed', 'compute'),
+             ('misfit', 'jtvec', 'jtvec'), ('gradient', 'jtvec', 'jtvec'),
+             ('jtvec', 'jvec', 'jtvec'), ('jtvec', 'clean_computed', 'jtvec'),
+             ('jvec', 'jtvec', 'jvec'), ('jtvec', 'copy', 'jtvec'),
+             ('jtvec', 'update_model', 'jtvec')]
     if tier != 'quick':
         core = ['compute', 'gradient', 'jvec', 'jtvec', 'clean_computed',
                 'clean_keepresults', 'copy_results', 'dict',
